@@ -79,7 +79,7 @@ func (v c16Val) GoFmt() string {
 }
 
 type c16Expr struct {
-	T    string // lit | var | bin | not | call | raw (N = source text, V = its value) | list (Args = the elements)
+	T    string // lit | var | bin | not | call | raw (N = source text, V = its value) | list (Args = the elements) | mapget (c16m[N], N a string variable: the value under that key, nil when there is none) | isunset (N == nil: the name is not bound, or holds nil)
 	V    c16Val
 	N    string // var name / callee name
 	Op   string
@@ -93,6 +93,10 @@ func (e *c16Expr) Src() string {
 		return e.V.Src()
 	case "var", "raw":
 		return e.N
+	case "mapget":
+		return "c16m[" + e.N + "]"
+	case "isunset":
+		return e.N + " == nil"
 	case "not":
 		return "!" + e.L.Src()
 	case "list":
@@ -119,7 +123,7 @@ func (e *c16Expr) Src() string {
 }
 
 type c16Stmt struct {
-	T       string // ret | if | let | mark | for (N = loop variable, E = iterable, Then = body) | probe (E = a call that may fail, N = the form that forgives it, ID = number of its throw-away local; see oracle_c16_scope.go)
+	T       string // ret | if | let | set (assignment to a parameter / local of the function itself) | mark | for (N = loop variable, E = iterable, Then = body) | probe (E = a call that may fail, N = the form that forgives it, ID = number of its throw-away local; see oracle_c16_scope.go)
 	E       *c16Expr
 	N       string
 	ID      int
@@ -150,6 +154,8 @@ func c16Block(ss []*c16Stmt, ind string) string {
 			b.WriteString(ind + "return " + s.E.Src() + "\n")
 		case "let":
 			b.WriteString(ind + "let " + s.N + " = " + s.E.Src() + "\n")
+		case "set":
+			b.WriteString(ind + s.N + " = " + s.E.Src() + "\n")
 		case "mark":
 			b.WriteString(ind + "c16mark(" + strconv.Itoa(s.ID) + ")\n")
 		case "for":
@@ -228,6 +234,18 @@ func (m *c16Ref) eval(e *c16Expr, env *c16Env) c16Val {
 		return v
 	case "not":
 		return c16Val{K: "bool", B: !c16Truth(m.operand(e.L, env))}
+	case "mapget": // the context value c16m holds "x" under "x" and "y" under "y"
+		k, ok := env.get(e.N)
+		if !ok || k.K != "str" {
+			panic(c16Stuck{"map key " + e.N})
+		}
+		if k.S == "x" || k.S == "y" {
+			return k
+		}
+		return c16Val{K: "nil"}
+	case "isunset":
+		v, ok := env.get(e.N)
+		return c16Val{K: "bool", B: !ok || v.K == "nil"}
 	case "call":
 		fv, ok := env.get(e.N)
 		if !ok || fv.K != "fn" {
@@ -342,6 +360,13 @@ func (m *c16Ref) run(ss []*c16Stmt, env *c16Env) (c16Val, bool) {
 			return m.eval(s.E, env), true
 		case "let":
 			env.vars[s.N] = m.eval(s.E, env)
+		case "set":
+			// only a name the function's own scope binds (a parameter, an earlier let of this body): what an
+			// assignment to a name of an outer scope does is open
+			if _, own := env.vars[s.N]; !own {
+				panic(c16Stuck{"assignment to a name of another scope: " + s.N})
+			}
+			env.vars[s.N] = m.eval(s.E, env)
 		case "mark":
 			m.marks = append(m.marks, s.ID)
 		case "probe":
@@ -406,6 +431,8 @@ type c16Case struct {
 	// == != && || !, a condition). Whether it forgives is NOT part of the property: each of these templates holds one
 	// such failure on its own; when the case ends in an error and one of them does too, the case is open
 	Probes []string `json:"probes,omitempty"`
+	// the value the reference gives the call (c16Build; not part of the case text)
+	rv c16Val
 }
 
 // c16GoVal: the Go value of a literal written in template syntax ("x", 2, true).
@@ -446,6 +473,13 @@ func c16Eval(cs *c16Case) c16Verdict {
 			return nil
 		},
 		"c16show": func(v interface{}) string { return fmt.Sprintf("%T:%v", v, v) },
+		// the same for values that may be nil
+		"c16kind": func(v interface{}) string {
+			if v == nil {
+				return "nil"
+			}
+			return fmt.Sprintf("%T:%v", v, v)
+		},
 		// sources of nil values: a missing key of c16m, the result of c16nil()
 		"c16m":   map[string]interface{}{"x": "x", "y": "y"},
 		"c16nil": func() interface{} { return nil },
@@ -538,13 +572,14 @@ func c16Record(rep *Report, cs *c16Case, v c16Verdict) {
 func init() {
 	oracles["C16"] = func(cfg Config) []*Report {
 		rep := NewReport("C16", "C16", cfg)
-		rep.Rule = "generated functions of 0-4 typed parameters (int/string/bool) whose bodies are decision chains (if / else-if / else, nested ifs, let-bound locals, returns of parameters, literals, concatenations, sums, comparisons; c16mark statements before and after returns), called with ALL tuples over {0,1,2} x {\"x\",\"y\"} x {true,false}; arguments written as literals, as caller variables named like the parameters in the same order, permuted (f(b, a)), or as expressions over them (f(b, a + 1)); the value used in an output tag, an if condition, ==, let (+ later ==), as argument of another user function and of a Go helper (which must receive the plain Go value), in string concatenation / arithmetic / negation; first-class use (stored in a variable, passed as an argument and called through a parameter, also with parameter names that collide); recursion to depth 6 (countdown, sum, factorial, string building, accumulators in both parameter orders, fibonacci, mutual recursion, let-bound intermediate); too few arguments (must not panic); arguments that are, or contain, user function calls, in every argument position (the function itself with another tuple, another generated decision chain, identity / k-th-of-m projection functions whose other arguments differ from the outer call's, two levels deep, as operand of an argument expression; also through a stored / passed function), recursion through an argument (add(n, sum(n - 1)), f(n - 1, f(0, ..)) in first and later positions); a second call of the function after an earlier call with another tuple; loops in function bodies (for { if { return } }, for { return }, nested for, for inside if / else, two loops; arrays passed as literal / caller variable or written in the body; marks before, inside and after the loop); nil- and zero-valued arguments (optional parameters with values nil / \"\" 0 false / another value, every tuple with a nil among up to 12 per function; nil written as nil, a missing map key, the result of a helper; the body tests such parameters with == nil, != nil, nil ==, truth, !, == value) while a non-nil variable named like each parameter is visible from the call site: a let, a loop variable, a value of the render context, the parameter of a calling function, the same parameter of the calling invocation (recursions that pass nil on, depth 0..6); histories in which ONE call site is evaluated several times while its callee name holds different functions (2-4 generated chains of one signature with disjoint marks): a higher-order function used 2-5 times with alternating function arguments (named, stored, or the value of a chooser function; result returned / let-bound / compared / tested / concatenated inside it), a loop variable ranging over a list of functions (also nested with a loop over argument values, list stored first), a free name re-bound (assignment or let) between uses of the function that calls it, recursive / composing combinators (rep, twice, comp, zig) whose callbacks change between uses, a local that holds either function, and one call site in a loop over argument values; scope histories (oracle_c16_scope.go): (1) a function defined by ONE template and called by ANOTHER one - 1-3 later renders with the same context (plush.Render or Parse + Exec, the function also stored under another name by a render in between) or a partial of the defining / a later page (data named like the parameters, the function handed over as data) - from a call site with variables of its own: inside another function (parameters named like the callee's, rotated, permuted arguments), in a for loop (loop variable named like a parameter), in a partial, a loop around the partial, a loop / function inside the partial, while top-level variables of the same names hold other values; (2) a call that FAILS on an unset variable (in its body, 0-4 frames down a recursion, through another user function, through a function parameter, inside a loop of the body, inside an argument of another call, or an argument that is the unset variable itself) in a place where plush forgives that (18 forms: operand of == != && || !, left and right, if / else-if conditions), value discarded, followed by reads of the caller's variables named like the failed callee's parameters and by further calls over them (same names / permuted / expressions) - at top level, inside a calling function (1-2 failures, then its return value), in a loop body, in a partial; ~88% of these histories contain a failing call. Expected value and executed marks from a call-by-value reference evaluator. Every case calls a user function; non-trivial = all; distinct by case text"
+		rep.Rule = "generated functions of 0-4 typed parameters (int/string/bool) whose bodies are decision chains (if / else-if / else, nested ifs, let-bound locals, returns of parameters, literals, concatenations, sums, comparisons; c16mark statements before and after returns), called with ALL tuples over {0,1,2} x {\"x\",\"y\"} x {true,false}; arguments written as literals, as caller variables named like the parameters in the same order, permuted (f(b, a)), or as expressions over them (f(b, a + 1)); the value used in an output tag, an if condition, ==, let (+ later ==), as argument of another user function and of a Go helper (which must receive the plain Go value), in string concatenation / arithmetic / negation; first-class use (stored in a variable, passed as an argument and called through a parameter, also with parameter names that collide); recursion to depth 6 (countdown, sum, factorial, string building, accumulators in both parameter orders, fibonacci, mutual recursion, let-bound intermediate); too few arguments (must not panic); arguments that are, or contain, user function calls, in every argument position (the function itself with another tuple, another generated decision chain, identity / k-th-of-m projection functions whose other arguments differ from the outer call's, two levels deep, as operand of an argument expression; also through a stored / passed function), recursion through an argument (add(n, sum(n - 1)), f(n - 1, f(0, ..)) in first and later positions); a second call of the function after an earlier call with another tuple; loops in function bodies (for { if { return } }, for { return }, nested for, for inside if / else, two loops; arrays passed as literal / caller variable or written in the body; marks before, inside and after the loop); nil- and zero-valued arguments (optional parameters with values nil / \"\" 0 false / another value, every tuple with a nil among up to 12 per function; nil written as nil, a missing map key, the result of a helper; the body tests such parameters with == nil, != nil, nil ==, truth, !, == value) while a non-nil variable named like each parameter is visible from the call site: a let, a loop variable, a value of the render context, the parameter of a calling function, the same parameter of the calling invocation (recursions that pass nil on, depth 0..6); histories in which ONE call site is evaluated several times while its callee name holds different functions (2-4 generated chains of one signature with disjoint marks): a higher-order function used 2-5 times with alternating function arguments (named, stored, or the value of a chooser function; result returned / let-bound / compared / tested / concatenated inside it), a loop variable ranging over a list of functions (also nested with a loop over argument values, list stored first), a free name re-bound (assignment or let) between uses of the function that calls it, recursive / composing combinators (rep, twice, comp, zig) whose callbacks change between uses, a local that holds either function, and one call site in a loop over argument values; scope histories (oracle_c16_scope.go): (1) a function defined by ONE template and called by ANOTHER one - 1-3 later renders with the same context (plush.Render or Parse + Exec, the function also stored under another name by a render in between) or a partial of the defining / a later page (data named like the parameters, the function handed over as data) - from a call site with variables of its own: inside another function (parameters named like the callee's, rotated, permuted arguments), in a for loop (loop variable named like a parameter), in a partial, a loop around the partial, a loop / function inside the partial, while top-level variables of the same names hold other values; (2) a call that FAILS on an unset variable (in its body, 0-4 frames down a recursion, through another user function, through a function parameter, inside a loop of the body, inside an argument of another call, or an argument that is the unset variable itself) in a place where plush forgives that (18 forms: operand of == != && || !, left and right, if / else-if conditions), value discarded, followed by reads of the caller's variables named like the failed callee's parameters and by further calls over them (same names / permuted / expressions) - at top level, inside a calling function (1-2 failures, then its return value), in a loop body, in a partial; ~88% of these histories contain a failing call; nil return values (oracle_c16_fresh.go): decision chains of 0-4 parameters some of whose returns yield nil (return nil, a missing key of a map - also looked up under a parameter -, the result of a helper) or a zero value (\"\" 0 false), up to 8 tuples per function for which the reference yields nil and up to 3 others, the value emitted, tested (if, !, || false, true &&), compared (== / != nil and values, either side), let-bound then compared, handed to a Go helper (must receive nil) and to user functions that compare / test their parameter, called directly / stored / passed / through a function that returns it again, literal / same-name / permuted arguments; recursions that hand nil up 0..6 frames, look it up at the bottom, compare or test it in the frame above; locals of the body (callee-locals-in-fresh-scope): functions of 0-4 parameters (1/3 with none) whose bodies bind names with let (new names, their own parameters, names of caller variables, a top-level variable they have just read: let u1 = u1 + 1; locals of one if branch) or assign their own locals / parameters, called 1-3 times from the top level (variables of those names before, every watched name read after every call - names the caller does not have must stay unset; sometimes read by a later render with the same context), from a function whose parameters are named like the callee's locals (callee by name, stored, through ap, or as a parameter of the caller; called once or twice; the caller returns a result or one of its parameters) and from a for loop whose variable is named like a local. Expected value and executed marks from a call-by-value reference evaluator. Every case calls a user function; non-trivial = all; distinct by case text"
 		rep.Notes = append(rep.Notes,
 			"not checked (open): too many arguments; a function whose body reaches no return; text emitted inside a function body; let inside a loop body; too few arguments is only required not to panic or hang",
 			"family ids are derived from the shape of the case, not from the symptom: args-evaluated-in-callee-scope = arguments mention caller variables named like parameters in another position; call-value-is-return-object = the call's value is consumed by anything other than an output tag; cases with both features are reduced to one feature when that still fails; argument-is-call-result = an argument of the call is (or contains) a user function call (arguments that are calls are turned back into their plain values while the case still fails); call-after-earlier-call = the function was called before with other arguments",
 			"nil-argument-binds-parameter: plush treats a variable that holds nil as unset everywhere (a plain let too), so a parameter bound to nil can only be mentioned in ==, !=, !, &&, || and conditions; only those uses are generated and checked, anything else is left open (the reference refuses it: not-a-case). Passing a nil-valued variable on as an argument is open for the same reason",
 			"histories (…-another-function, loop-over-…, local-holds-either-function): every emitted value is followed by |; a history that still fails after it was reduced to a single use is reported as <family>:single-use (then the failure does not need several uses)",
 			"scope histories: function-called-from-later-render / function-called-from-partial = the function value is called by another evaluation than the one that created it (…:single-render = the case still fails as one template); caller-scope-after-failed-call = something after a forgiven failing call is wrong (…:no-failed-call = the case still fails without the failing call). Whether plush forgives a failure inside a function body is NOT checked (open): the value of the forgiving expression is never used, and a case that ends in an error is only a failure if each forgiven failure on its own (case field probes) renders without error - otherwise it is counted as ERR-open",
+			"nil-return-value-used / nil-return-value-emitted: the reference says the call yields nil (whatever else the case contains). Not generated (open): truth of \"\" and of numbers, a nil result bound by let and then mentioned as a value, a nil result returned by an identity function's parameter. callee-locals-in-fresh-scope: only bindings whose meaning does not depend on open questions are generated: no assignment to a name of an outer scope, no let inside a loop body, a local bound inside an if block is read in that block only, free variables are top-level names that no frame in between binds (defining-scope and calling-scope lookup agree), a loop variable is not read after its loop; …:no-locals = the case still fails when the bodies bind nothing",
 			"return-inside-loop-does-not-end-function: the property says the call yields the value of the first return reached, skipping everything after it; in plush a return inside a for body only ends that iteration. Cases of the loop family in which the reference reaches a return inside a loop are reported under this one id, the others under loop-in-function-body")
 		if cfg.Arg != "" {
 			var cs c16Case
